@@ -3,6 +3,8 @@
    alias` (CopyHandle::new) and the inode check in main's validation. *)
 From XcpModel Require Import Base Backup Walker Meta Ops.
 From XcpProofs Require Import OpsProofs.
+From XcpModel Require Import Extracted.
+From XcpProofs Require Import ExtractedOk.
 
 (* every key a copy operation can change — in any prefix of its execution,
    i.e. wherever it is killed or fails — is its own target or that target's
@@ -38,7 +40,14 @@ Example C03_nonvacuous :
   length (fst (copy_actions (mkFin false false true true) [[97]] [[98]] e)) = 15%nat.
 Proof. vm_compute. split; reflexivity. Qed.
 
+(* ---- tie to the current source (translator): the order of the steps of CopyHandle::new — in particular the
+   same-file check (23) comes after the probe of the destination (22) and BEFORE the first mutating step
+   (rename 1, create+truncate 2, size 3) ---- *)
+Theorem C03_src_copy_new_order : x_copy_new_steps = [20; 21; 22; 23; 98; 24; 25; 1; 2; 3]%N.
+Proof. exact x_copy_new_steps_ok. Qed.
+
 Print Assumptions C03_writes_only_mapped.
 Print Assumptions C03_source_only_read.
 Print Assumptions C03_link_special_only_mapped.
 Print Assumptions C03_no_self_overwrite.
+Print Assumptions C03_src_copy_new_order.
